@@ -19,4 +19,17 @@ def main():
                 traceback.print_exc()
                 print("selftest %-24s FAILED" % name)
                 bad += 1
+    # the known-findings filter itself (no entry is open at present, so no registered run exercises it)
+    try:
+        from vlib.core import match_open
+        fl = [{"id": "X1", "status": "open", "facet": "cuts-*", "signature": "sig-a"}, {"id": "X2", "status": "fixed", "facet": "*", "signature": "sig-b"}]
+        assert match_open(fl, "cuts-sampled", "sig-a") == "X1"          # listed open finding: excluded and counted
+        assert match_open(fl, "cuts-sampled", "sig-a:other") is None    # another failure mode at the same site: still a violation
+        assert match_open(fl, "other-facet", "sig-a") is None
+        assert match_open(fl, "cuts-sampled", "sig-b") is None          # fixed entries suppress nothing
+        print("selftest %-24s ok: open entries match by (facet glob, signature); fixed entries suppress nothing" % "findings-filter")
+    except Exception:
+        traceback.print_exc()
+        print("selftest %-24s FAILED" % "findings-filter")
+        bad += 1
     return 2 if bad else 0
